@@ -30,6 +30,7 @@ echo "demo_clean_exit=$(run_demo)" >> $R
 if ! (cd $WT && git apply $DST/patch.diff); then echo "patch_applies=no" >> $R; else echo "patch_applies=yes" >> $R; fi
 (cd $WT && go build ./... >/tmp/sv-build.log 2>&1); echo "build_exit=$?" >> $R
 echo "demo_patched_exit=$(run_demo)" >> $R
+(cd $WT && git clean -fdq)   # demo files staged inside the tree must not take part in the suite
 if [ -z "${SKIP_SUITE:-}" ]; then
   (cd $WT && go test -vet=off -count=1 -timeout 25m ./... > /tmp/sv-suite-$P-$X.log 2>&1)
   echo "suite_ok_pkgs=$(grep -c '^ok' /tmp/sv-suite-$P-$X.log) suite_fail_pkgs=$(grep '^FAIL' /tmp/sv-suite-$P-$X.log | grep -v '^FAIL$' | awk '{print $2}' | tr '\n' ' ')" >> $R
